@@ -1,7 +1,10 @@
 """An independent transcription of the PEG reading of C01 over SURFACE grammars (no pyparsing objects, no Coq model):
 which elements skip leading whitespace is decided structurally, as the property states it
 (tokens skip, CharsNotIn does not; a sequence behaves as its first element; alternations and wrappers as their contents;
-negative lookahead does not skip; Combine skips once and then not at all inside; a Forward as its body - but an element
+negative lookahead does not skip; Combine skips once and then not at all inside; a repetition with stop_on tests the stop
+expression (a lookahead that skips like the stop expression itself) before every round; SkipTo skips like its target and then
+tries the target at every position WITHOUT leading whitespace skip (a sequence / wrapper / Forward hands that on to its first
+element / content; alternations, lookaheads and repetitions do not); a Forward as its body - but an element
 constructed around a Forward that is still empty sees the default "skips", because these flags are copied at construction).
 Used as the implementation-side oracle of tools/props/c01.py: it does not look at the flags of the real objects, so a
 change that breaks the constructors' flag inheritance shows up as a disagreement with a concrete input."""
@@ -32,7 +35,7 @@ def ctime_flag(g, env, defd):
         return True
     if k in ("notin", "not"):
         return False
-    if k in ("and", "dlist", "opt", "star", "plus", "group", "suppress", "fb"):
+    if k in ("and", "dlist", "opt", "star", "plus", "group", "suppress", "fb", "starstop", "plusstop", "skipto", "skiptoi"):
         return ctime_flag(g[1], env, defd)
     if k in ("mf", "or"):
         return all(ctime_flag(x, env, defd) for x in g[1:])
@@ -58,7 +61,7 @@ def callpre_flag(g, env, seen=()):
     k = g[0]
     if k in ("mf", "or", "each"):
         return False
-    if k in ("opt", "star", "plus", "group", "suppress", "fb", "not"):
+    if k in ("opt", "star", "plus", "group", "suppress", "fb", "not", "starstop", "plusstop", "skipto", "skiptoi"):
         return callpre_flag(g[1], env, seen)
     if k == "dlist":
         return True          # wraps an And
@@ -71,14 +74,16 @@ def skip(s, loc):
     return loc
 
 
-def peg(g, env, s, loc, nows=False, depth=0, defd=frozenset()):
-    """returns (end, tokens) or None; nows = inside Combine(adjacent=True): nothing skips"""
+def peg(g, env, s, loc, nows=False, depth=0, defd=frozenset(), np=False):
+    """returns (end, tokens) or None; nows = inside Combine(adjacent=True): nothing skips;
+    np = tried by SkipTo at this very position: no leading whitespace skip of its own"""
     if depth > 150:
         raise Spin()
     k = g[0]
-    pre = (not nows) and callpre_flag(g, env) and skipws_flag(g, env, defd)
+    pre = (not nows) and (not np) and callpre_flag(g, env) and skipws_flag(g, env, defd)
     l0 = skip(s, loc) if pre else loc
     P = lambda x, l: peg(x, env, s, l, nows, depth + 1, defd)
+    PN = lambda x, l: peg(x, env, s, l, nows, depth + 1, defd, np)      # the component that inherits "no skip here"
     if k == "lit":
         return (l0 + len(g[1]), [g[1]]) if s.startswith(g[1], l0) and l0 < len(s) + (1 if not g[1] else 0) else None
     if k == "clit":
@@ -134,7 +139,8 @@ def peg(g, env, s, loc, nows=False, depth=0, defd=frozenset()):
         l, toks = l0, []
         first = True
         for x in g[1:]:
-            r = peg(x, env, s, l, nows, depth + 1, defd)
+            r = peg(x, env, s, l, nows, depth + 1, defd, np and first)
+            first = False
             if r is None:
                 return None
             l, t = r
@@ -192,18 +198,25 @@ def peg(g, env, s, loc, nows=False, depth=0, defd=frozenset()):
                 l = P(e, l)[0]
         return (l, toks)
     if k == "opt":
-        r = P(g[1], l0)
+        r = PN(g[1], l0)
         return r if r is not None else (l0, [])
-    if k in ("star", "plus"):
-        r = P(g[1], l0)
+    if k in ("star", "plus", "starstop", "plusstop"):
+        # with stop_on: before every round "the stop expression does not match here" (a negative lookahead) is required
+        stop = ("not", g[2]) if k.endswith("stop") else None
+        # (Combine's leave_whitespace() copies its content recursively but never reaches the stop expression: it keeps skipping)
+        ended = lambda l: stop is not None and peg(stop, env, s, l, False, depth + 1, defd) is None
+        zero = k.startswith("star")
+        r = None if ended(l0) else P(g[1], l0)
         if r is None:
-            return (l0, []) if k == "star" else None
+            return (l0, []) if zero else None
         l, toks = r
         n = 0
         while True:
             n += 1
             if n > len(s) + 3:
                 raise Spin()
+            if ended(l):
+                return (l, toks)
             r = P(g[1], l)
             if r is None:
                 return (l, toks)
@@ -215,11 +228,21 @@ def peg(g, env, s, loc, nows=False, depth=0, defd=frozenset()):
     if k == "fb":
         return (l0, []) if P(g[1], l0) is not None else None
     if k == "group":
-        r = P(g[1], l0)
+        r = PN(g[1], l0)
         return None if r is None else (r[0], [r[1]])
     if k == "suppress":
-        r = P(g[1], l0)
+        r = PN(g[1], l0)
         return None if r is None else (r[0], [])
+    if k in ("skipto", "skiptoi"):
+        # from here, one character at a time up to and including the end of the text: the first position at which the target
+        # matches, tried exactly there; the token is the skipped text (+ the target's tokens with include=True)
+        tl = l0
+        while tl <= len(s):
+            r = peg(g[1], env, s, tl, nows, depth + 1, defd, True)
+            if r is not None:
+                return (tl, [s[l0:tl]]) if k == "skipto" else (r[0], [s[l0:tl]] + r[1])
+            tl += 1
+        return None
     if k == "combine":
         r = peg(g[1], env, s, l0, True, depth + 1, defd)
         if r is None:
@@ -233,7 +256,7 @@ def peg(g, env, s, loc, nows=False, depth=0, defd=frozenset()):
         return (r[0], ["".join(flat)])
     if k == "dlist":
         d = ("lit", g[2])
-        return P(("and", g[1], ("star", ("and", ("suppress", d), g[1]))), l0)
+        return PN(("and", g[1], ("star", ("and", ("suppress", d), g[1]))), l0)
     if k == "fwd":
         if g[1] not in env:
             return None
@@ -241,7 +264,7 @@ def peg(g, env, s, loc, nows=False, depth=0, defd=frozenset()):
             # Combine / leave_whitespace() around a Forward that is still empty only reaches a wrapper copy: the body assigned later
             # keeps skipping whitespace.  Which calls then pre-parse depends on the wrapper chain; outside this transcription.
             raise Unsupported("leave_whitespace over an unassigned Forward")
-        return peg(env[g[1]], env, s, l0, nows, depth + 1, _before(env, g[1]))
+        return peg(env[g[1]], env, s, l0, nows, depth + 1, _before(env, g[1]), np)
     raise Unsupported(k)
 
 
